@@ -503,6 +503,19 @@ func wfRangeReq(o *ObjectRangeRequest) bool {
 //@ ensures [C14]     ids:    idsBelow(u) && big_val(u.uploadID) >= 0
 //@ ensures           locks:  u.mu == 0
 
+//@ func NewListBucketVersionsResult
+//@ props C13 C09
+//@ ensures [C13]      init:   ret0 != nil && fresh(ret0) && len(ret0.Versions) == 0 && len(ret0.CommonPrefixes) == 0 && !ret0.IsTruncated &&
+//@                              ret0.NextKeyMarker == "" && ret0.NextVersionIDMarker == "" && ret0.prefixes == nil && ret0.Name == bucketName
+//@ modifies nothing
+
+//@ func (*ListBucketVersionsResult).AddPrefix
+//@ props C13 C09
+//@ requires           b:      b != nil
+//@ ensures [C13]      keep:   b.Versions == old(b.Versions) && b.IsTruncated == old(b.IsTruncated) && b.NextKeyMarker == old(b.NextKeyMarker) && b.NextVersionIDMarker == old(b.NextVersionIDMarker)
+//@ ensures            own:    imp(old(b.prefixes) == nil, fresh(b.prefixes)) && imp(old(b.prefixes) != nil, b.prefixes == old(b.prefixes))
+//@ modifies b.prefixes, b.CommonPrefixes, b.prefixes[:]
+
 //@ func (ListBucketPage).IsEmpty
 //@ props C04 C09
 //@ ensures [C04]      def:    ret0 == (!p.HasMarker && p.Marker == "" && p.MaxKeys == 0)
